@@ -29,7 +29,8 @@ EDITS = {
         ("macro-does-not-flush", "macro/src/lib.rs", "            quote! { #p.flush(); }", "            let _ = p;\n            quote! {}"),
         ("macro-flushes-before-the-body", "macro/src/lib.rs", "                let ret = #method_invocation(#(#all_params_names),*);\n                #(#write_flushes)*\n                ret #maybe_into", "                #(#write_flushes)*\n                let ret = #method_invocation(#(#all_params_names),*);\n                ret #maybe_into"),
         ("cpp-grow-does-not-update-buf", "tool/templates/cpp/runtime.hpp.jinja", "  w->cap = string->length();\n  w->buf = &(*string)[0];", "  w->cap = string->length();"),
-        ("cpp-flush-resizes-to-cap", "tool/templates/cpp/runtime.hpp.jinja", "  string->resize(w->len);", "  string->resize(w->cap);"),
+        # (not an edit: `_flush` resizing to w->cap instead of w->len is an equivalent change — write_str requests exactly
+        #  len + chunk from `_grow`, which makes cap == requested, so len == cap whenever `_flush` runs)
         ("c-header-swaps-len-and-cap", "tool/templates/c/capi.h.jinja", "    size_t len;\n    size_t cap;", "    size_t cap;\n    size_t len;"),
         ("partial-chunk-written-before-failed-grow", "runtime/src/write.rs", "            let success = (self.grow)(self, needed_len);\n            if !success {\n                self.grow_failed = true;\n                return Ok(());\n            }",
          "            let success = (self.grow)(self, needed_len);\n            if !success {\n                self.grow_failed = true;\n                let fits = self.cap - self.len;\n                unsafe { ptr::copy_nonoverlapping(s.as_bytes().as_ptr(), self.buf.add(self.len), fits) };\n                self.len = self.cap;\n                return Ok(());\n            }"),
@@ -168,3 +169,51 @@ def main(pos, opts, seed, seeded=False):
     missed = [r for r in results if not r["detected"]]
     common.log("%d of %d changes detected; report: %s" % (len(results) - len(missed), len(results), out))
     return 0 if not missed else 3
+
+
+def benign(pos, opts, seed):
+    """./check benign [ID] [--only name] [--all 1] — behaviour-preserving changes to /repo written by independent
+    sub-agents (benign/<name>/patch.diff): the quick check of the change's property (with --all 1: of all four claimed
+    properties) must stay silent on the changed tree. Report: reports/benign[-<ID>].json; exit 2 if any check alarmed."""
+    base = os.path.join(common.VERIF, "benign")
+    results, bad = [], []
+    scratch = make_scratch()
+    try:
+        for d in sorted(os.listdir(base)) if os.path.isdir(base) else []:
+            meta_p = os.path.join(base, d, "meta.json")
+            if not os.path.exists(meta_p):
+                continue
+            meta = json.load(open(meta_p))
+            if pos and meta.get("property") != pos[0]:
+                continue
+            if opts.get("only") and opts["only"] != d:
+                continue
+            sh(["git", "-C", scratch, "checkout", "--", "."])
+            sh(["git", "-C", scratch, "clean", "-fdq", "-e", "target"])
+            sh(["git", "-C", scratch, "apply", os.path.join(base, d, "patch.diff")])
+            props = ["C03", "C04", "C12", "C14"] if opts.get("all") == "1" else [meta["property"]]
+            for prop in props:
+                rc, viol, out, wall = run_check(prop, scratch, seed)
+                res = {"change": d, "written_for": meta["property"], "checked": prop, "check_rc": rc, "violation": viol[0] if viol else None, "wall_s": round(wall, 1)}
+                if rc != 0 or viol:
+                    res["tail"] = out[-2500:]
+                    bad.append((d, prop))
+                    m = re.search(r"replay=(\S+)", viol[0]) if viol else None
+                    if m and os.path.exists(m.group(1)):
+                        keep = os.path.join(common.VERIF, "reports", "replays")
+                        os.makedirs(keep, exist_ok=True)
+                        shutil.copy(m.group(1), os.path.join(keep, "benign-%s-%s" % (d, os.path.basename(m.group(1)))))
+                results.append(res)
+                common.log("[benign] %s / %s: rc=%d (%.0fs) %s" % (d, prop, rc, wall, (viol[0] if viol else "")[:160]))
+    finally:
+        drop_scratch()
+    tag = "" if seed == common.DEFAULT_SEED else "-seed%d" % seed
+    if opts.get("only"):
+        tag += "-only-" + opts["only"]
+    out = os.path.join(common.VERIF, "reports", "benign-" + ("all" if not pos else pos[0]) + tag + ".json")
+    json.dump({"seed": seed, "all_properties_checked": opts.get("all") == "1", "results": results}, open(out, "w"), indent=1)
+    common.log("%d of %d check runs silent; report: %s" % (len(results) - len(bad), len(results), out))
+    if bad:
+        print("HARNESS-ERROR: a check alarmed on a behaviour-preserving change: %s" % bad, file=sys.stderr)
+        return 2
+    return 0
